@@ -63,7 +63,7 @@ def load_corpus():
 # ---------------------------------------------------------------------------------------------
 # compile the generated TUs (at most JOBS compilers at a time), dependency-hash cached
 # ---------------------------------------------------------------------------------------------
-def compile_program(ctx, name, tus, flags):
+def compile_program(ctx, name, tus, flags, rejected=None):
     """tus: list of (filename, source text).  Returns exe path or None."""
     inc = ctx.shark_h()
     allflags = ctx.BASE_FLAGS + ctx.SAN_FLAGS + list(flags) + \
@@ -89,7 +89,17 @@ def compile_program(ctx, name, tus, flags):
         t = time.time()
         rc, out = core.sh(["g++", *allflags, "-MD", "-MF", dep, "-c", s, "-o", obj], timeout=3000)
         if rc != 0:
-            return None, True, f"{s}:\n{out[-6000:]}"
+            # keep the essentials: error lines and the generated statements they come from
+            keep, srcl = [], open(s).read().splitlines()
+            for l in out.splitlines():
+                if "error" in l:
+                    keep.append(l[:500])
+                mm = re.search(re.escape(os.path.basename(s)) + r":(\d+):\d+:", l)
+                if mm and int(mm.group(1)) <= len(srcl):
+                    st = "  statement: " + srcl[int(mm.group(1)) - 1][:400]
+                    if st not in keep:
+                        keep.append(st)
+            return None, True, f"{s}:\n" + "\n".join(keep[:12])
         with open(key, "w") as f:
             f.write(ctx._depkey(s, dep, allflags))
         ctx.count("compile_s", round(time.time() - t, 1))
@@ -99,6 +109,12 @@ def compile_program(ctx, name, tus, flags):
         res = list(ex.map(one, srcs))
     bad = [r[2] for r in res if r[0] is None]
     if bad:
+        ids = sorted({int(m.group(2)) for b in bad for m in re.finditer(r"statement: static \w+ (run|red|exp|rexp)_(\d+)\(", b)})
+        if ids and rejected is not None:
+            for b in bad:
+                errs = [l for l in b.splitlines() if "error" in l]
+                rejected.append(dict(ids=ids, error=(errs[0] if errs else b)[-300:]))
+            return ids
         ctx.log("generated TU failed to compile:\n" + bad[0])
         ctx.broken("harness-build", name, bad[0][-3000:])
         return None
@@ -127,26 +143,40 @@ def gen_program(ctx, ncases, nstmts, maxdepth, per_tu):
         from checks import c01cls
         calc = c01cls.ClassCalc(json.load(open(tj)))
     g = c01gen.Gen(r, ctx, maxdepth=maxdepth, calc=calc)
-    cases, srcs, infos = [], [], []
-    k = 0
+    cases, k = [], 0
     for _ in range(ncases):
-        ops = g.new_case()
+        init = g.new_case()
+        stmts = []
         for _ in range(nstmts):
             st = g.reduction(k) if r.chance(1, 6) else g.statement(k)
             if st is None:
                 continue
-            ops.append(st[0]); srcs.append(st[1]); infos.append(st[2])
+            stmts.append((k,) + st)
             k += 1
-        cases.append(ops)
-    tus = []
-    for i in range(0, len(srcs), per_tu):
-        body = c01gen.PRELUDE + "".join(srcs[i:i + per_tu]) + c01gen.POSTLUDE
-        tus.append((f"gen_{core.sha(body)[:16]}.cpp", body))
+        cases.append((init, stmts))
     if calc is not None:
         ctx.cov["rewrite_rules_fired_in_generated_program"] = dict(sorted(calc.fired.items()))
         ctx.cov["rewrite_rules_fired_distinct"] = len(calc.fired)
     ctx.cov["combinations_rejected_as_not_in_library"] = g.unsupported
-    return cases, tus, infos
+    return cases
+
+
+def render(cases, per_tu, dropped=()):
+    """cases: [(init ops, [(k, op, src, info)])] -> (op-line cases, TUs, infos); a case is cut at
+    its first dropped statement"""
+    out, srcs, infos = [], [], []
+    for init, stmts in cases:
+        ops = list(init)
+        for (k, op, src, info) in stmts:
+            if k in dropped:
+                break
+            ops.append(op); srcs.append(src); infos.append(info)
+        out.append(ops)
+    tus = []
+    for i in range(0, len(srcs), per_tu):
+        body = c01gen.PRELUDE + "".join(srcs[i:i + per_tu]) + c01gen.POSTLUDE
+        tus.append((f"gen_{core.sha(body)[:16]}.cpp", body))
+    return out, tus, infos
 
 
 def record_distribution(ctx, cases, infos):
@@ -199,13 +229,29 @@ def run(ctx):
     if not drv:
         return
     ncases, nstmts, maxdepth, per_tu = (24, 8, 3, 24) if ctx.quick else (150, 10, 4, 30)
-    cases, tus, infos = gen_program(ctx, ncases, nstmts, maxdepth, per_tu)
+    program = gen_program(ctx, ncases, nstmts, maxdepth, per_tu)
+    total = sum(len(st) for _, st in program)
+    # statements the C++ compiler rejects (combinations the library cannot instantiate and the rule
+    # table does not tell us about, e.g. mixed-orientation kernels) are dropped and counted
+    dropped, rejected = set(), []
+    for _ in range(6):
+        cases, tus, infos = render(program, per_tu, dropped)
+        res = compile_program(ctx, "c01-default", tus, [], rejected)
+        if not isinstance(res, list):
+            break
+        dropped |= set(res)
+    ctx.cov["statements_generated"] = total
+    ctx.cov["statements_rejected_by_compiler"] = len(dropped)
+    ctx.cov["compiler_rejections"] = rejected[:8]
+    if len(dropped) * 5 > total:
+        ctx.broken("harness-build", "c01-default", f"{len(dropped)} of {total} generated statements do not compile: {rejected[:2]}")
+        return
     record_distribution(ctx, cases, infos)
     ctx.sample({"case": cases[len(cases) // 2][-4:]})
     configs = CONFIGS
     for cname, flags in configs:
         exe = compile_program(ctx, f"c01-{cname}", tus, flags)
-        if not exe:
+        if not exe or isinstance(exe, list):
             continue
         core.correspond(ctx, f"K-C01[{cname}]", cases, [exe], [drv], classify, keep_prefix=sum(1 for o in cases[0] if not o.startswith(("stmt", "red"))))
 
